@@ -76,6 +76,8 @@ pub struct Req {
     pub headers: Vec<(String, Vec<u8>)>,
     pub body: Option<Vec<u8>>,
     pub chunked: bool,
+    /// send only this many body bytes (and no chunk terminator), then half-close the connection
+    pub truncate_body: Option<usize>,
 }
 
 impl Req {
@@ -96,6 +98,10 @@ impl Req {
     }
     pub fn chunked(mut self) -> Req {
         self.chunked = true;
+        self
+    }
+    pub fn truncated(mut self, sent: usize) -> Req {
+        self.truncate_body = Some(sent);
         self
     }
 }
@@ -120,6 +126,18 @@ fn encode(req: &Req) -> Vec<u8> {
         out.extend(b"\r\n");
     }
     match &req.body {
+        Some(b) if req.chunked && req.truncate_body.is_some() => {
+            let k = req.truncate_body.unwrap().min(b.len());
+            out.extend(b"Transfer-Encoding: chunked\r\n\r\n");
+            out.extend(format!("{:x}\r\n", k).as_bytes());
+            out.extend(&b[..k]);
+            out.extend(b"\r\n");
+        }
+        Some(b) if req.truncate_body.is_some() => {
+            let k = req.truncate_body.unwrap().min(b.len());
+            out.extend(format!("Content-Length: {}\r\n\r\n", b.len()).as_bytes());
+            out.extend(&b[..k]);
+        }
         Some(b) if req.chunked => {
             out.extend(b"Transfer-Encoding: chunked\r\n\r\n");
             for chunk in b.chunks(16 * 1024) {
@@ -183,6 +201,9 @@ impl Conn {
         if let Err(e) = self.s.write_all(&encode(req)) {
             resp.error = Some(format!("write: {}", e));
             return resp;
+        }
+        if req.truncate_body.is_some() {
+            let _ = self.s.shutdown(std::net::Shutdown::Write);
         }
         let deadline = Instant::now() + Duration::from_secs(10);
         let find = |b: &[u8]| b.windows(4).position(|w| w == b"\r\n\r\n");
